@@ -1,6 +1,7 @@
 import Driver.Run
 import Driver.Fam.Entry
+import Driver.Fam.Extra
 open Driver
 /-- families of area "entry" (C10 coverage audit: uncovered entry points, path-taking wrappers) -/
 def main (args : List String) : IO UInt32 :=
-  run [Fam.Entry.entrymut, Fam.Entry.filewrap] args
+  run [Fam.Entry.entrymut, Fam.Entry.filewrap, Fam.Extra.extra] args
